@@ -2,6 +2,7 @@
 import PflDrv.Json
 import Pfl.Model.CFG
 import Pfl.Oracle.CfgMem
+import Pfl.Oracle.Trees
 open Lean Pfl
 namespace PflDrv
 
@@ -39,6 +40,19 @@ def jCFG (G : CFG) : Json :=
 def jSymList (l : List Sym) : Json := jList jSym l
 def jWords (l : List (List String)) : Json := jList (jList jStr) l
 
+partial def asTree (j : Json) : R PTree := do
+  match ← asArr j with
+  | [k, v, sons] =>
+    let s ← asSym (Json.arr #[k, v])
+    let ss ← (← asArr sons).mapM asTree
+    pure (.node s ss)
+  | _ => throw "bad tree"
+
+partial def jTree : PTree → Json
+  | .node s sons => match jSym s with
+    | Json.arr a => Json.arr (a.push (Json.arr (sons.map jTree).toArray))
+    | x => x
+
 def cfgFuel : Nat := 100000
 
 def cfgHandle (op : String) (j : Json) : R Json := do
@@ -72,6 +86,24 @@ def cfgHandle (op : String) (j : Json) : R Json := do
   | "cfg.langUpTo" =>   -- oracle
     let n ← asNat (← field j "n")
     pure (jOpt jWords (G.langUpTo n cfgFuel))
+  | "cfg.ll1" =>   -- oracle
+    pure (Json.mkObj [("first", jList (jPair jStr jStr) G.firstSets),
+      ("follow", jList (jPair jStr (jOpt jStr)) G.followSets),
+      ("nullable", jSymList G.nullable), ("isLL1", jBool G.isLL1),
+      ("predict", jList (fun p => Json.arr #[jProd p, jList (jOpt jStr) (G.predict p)]) G.prods.eraseDups)])
+  | "cfg.llParse" =>   -- oracle
+    let ws ← (← asArr (← field j "words")).mapM asStrList
+    pure (jList (jOpt jTree) (ws.map fun w => G.llParse w 2000))
+  | "cfg.treeValid" =>   -- oracle
+    let t ← asTree (← field j "tree")
+    let w ← asStrList (← field j "word")
+    pure (jBool (G.treeValid t w))
+  | "cfg.derivValid" =>   -- oracle
+    let left ← asBool (← field j "left")
+    let root ← asSym (← field j "root")
+    let lines ← (← asArr (← field j "lines")).mapM fun l => do (← asArr l).mapM asSym
+    let w ← asStrList (← field j "word")
+    pure (jBool (G.derivationValid left root lines w))
   | "cfg.getWords" =>
     let mx ← asOptNat (← field j "max")
     pure (jOpt jWords (G.getWords mx 60))
